@@ -367,7 +367,7 @@ func ruleConsumeIdentity(c *Ctx, r *Rule) {
 			desc := "offsets argument not built by pipeline.NewOffsets at the call"
 			if no, isCall := cc.Args[2].(*ssa.Call); isCall && no.Call.StaticCallee() != nil && no.Call.StaticCallee().Name() == "NewOffsets" {
 				desc = c.path(no.Call.Args[0])
-				if pc, isPack := stripConv(no.Call.Args[0]).(*ssa.Call); isPack && pc.Call.StaticCallee() == pack && len(pc.Call.Args) == 1 && pc.Call.Args[0] == rec {
+				if pc, isPack := stripConv(no.Call.Args[0]).(*ssa.Call); isPack && pc.Call.StaticCallee() == pack && len(pc.Call.Args) == 1 && (pc.Call.Args[0] == rec || sameVar(pc.Call.Args[0], rec)) {
 					okOff = true
 				}
 			}
